@@ -60,9 +60,25 @@ def run_path(kernel, params, prefix, vals, opts, trace=False):
         if trace:
             tracer = Tracer()
             sys.setprofile(tracer)
+        # per-path wall-clock guard: a path that does not end (e.g. changed code looping on a symbolic count) becomes an
+        # inconclusive path instead of hanging the whole check; other tasks' verdicts are still reported
+        limit = float(opts.get('path_timeout_s', 60))
+        armed = False
+        try:
+            import signal, threading
+            if threading.current_thread() is threading.main_thread():
+                def _on_alarm(signum, frame):
+                    raise OutOfModel('path did not end within %.0f s' % limit)
+                signal.signal(signal.SIGALRM, _on_alarm)
+                signal.setitimer(signal.ITIMER_REAL, limit)
+                armed = True
+        except Exception:
+            armed = False
         try:
             kernel.fn(**params)
         finally:
+            if armed:
+                signal.setitimer(signal.ITIMER_REAL, 0)
             if trace:
                 sys.setprofile(None)
     except OutOfModel as e:
